@@ -60,7 +60,28 @@ class Facts:
             import os
             with open(os.path.join(os.path.dirname(os.path.abspath(__file__)), "known_fns.json")) as f:
                 d = json.load(f)
-            k = self.__dict__["_known"] = (frozenset(d["names"]), frozenset(d["ids"]))
+            names = set(d["names"])
+            # a known function that is gone and a new one with the same shape in the same module: a rename, kept
+            # as a call (rules find their helpers by role / signature, not by name)
+            have = {b.name: b for b in self.bodies.values() if b.kind != "Closure"}
+            gone = [n for n in names if n not in have and n in d.get("sigs", {})]
+            new = [n for n in have if n not in names]
+            self.renamed = {}
+            for g in gone:
+                sg = d["sigs"][g]
+                mod = g.rsplit("::", 1)[0]
+                cands = []
+                for n in new:
+                    if n.rsplit("::", 1)[0] != mod:
+                        continue
+                    b = have[n]
+                    sn = [b.local_ty(i) for i in range(0, b.argc + 1)]
+                    if len(sn) == len(sg) and sn[0] == sg[0] and sum(1 for x, y in zip(sn, sg) if x == y) >= len(sg) - 1:
+                        cands.append(n)
+                if len(cands) == 1:
+                    self.renamed[cands[0]] = g
+            names |= set(self.renamed)
+            k = self.__dict__["_known"] = (frozenset(names), frozenset(d["ids"]))
         return k
 
     def ibody(self, name, keep=None, depth=4, adaptors=True, combinators=False):
